@@ -948,7 +948,7 @@ func genExhaustive(emit func([]string)) {
 func gen(r *h.Rand, tier string, emit func([]string)) {
 	nLayouts, nk := 1200, 12
 	if tier == "thorough" {
-		nLayouts, nk = 12000, 16
+		nLayouts, nk = 8000, 16
 	}
 	const batch = 256
 	for c0 := 0; c0 < nLayouts; c0 += batch {
